@@ -28,6 +28,7 @@ ORDER_COLS = ["seqid", "source", "featuretype", "start", "end", "score", "strand
 CI = {"seqid": 0, "source": 1, "featuretype": 2, "start": 3, "end": 4, "score": 5, "strand": 6, "frame": 7}
 SEQIDS = ["chr1", "Chr1", "chr10", "chr9", "10", "9", "chrÄ", "2L"]
 TYPES = ["gene", "Gene", "exon", "CDS"]
+MANY_TYPES = TYPES + ["mRNA", "ncRNA", "tRNA", "intron", "UTR"]
 
 
 def budget(tier):
@@ -36,18 +37,18 @@ def budget(tier):
     return {"runs": 60000, "wall": 1500, "chunk": 8}
 
 
-def feat(rng, ident=None):
+def feat(rng, ident=None, types=TYPES):
     s = rng.choice([1, 1, 5, 10, 10, 100])
     e = s + rng.choice([0, 0, 4, 9, 90])
     attrs = [["ID", [ident]]] if ident else [["note", [rng.choice(["k", "j"])]]]
     if rng.random() < 0.3:
         attrs.append(["Name", [rng.choice(["n1", "N1", "né"])]])
     extra = [rng.choice(["x", "y"])] if rng.random() < 0.2 else []
-    return mf([rng.choice(SEQIDS), rng.choice(["src", "Src", "alt"]), rng.choice(TYPES), s, e, rng.choice([".", "10", "9", "9.5", "0"]),
+    return mf([rng.choice(SEQIDS), rng.choice(["src", "Src", "alt"]), rng.choice(types), s, e, rng.choice([".", "10", "9", "9.5", "0"]),
                rng.choice(["+", "-", "."]), rng.choice([".", "0", "1", "2"])], attrs, extra)
 
 
-def gen_query(rng):
+def gen_query(rng, TYPES=TYPES):
     q = {"m": rng.choice(["all_features", "all_features", "features_of_type"])}
     r = rng.random()
     if q["m"] == "features_of_type":
@@ -71,12 +72,16 @@ def gen_query(rng):
 
 def gen(rng, tier):
     ids = ["a", "b", "c", "d", "e", "f", "g"]
-    steps = [{"op": "create", "feats": [feat(rng, ids[i] if i < len(ids) and rng.random() < 0.7 else None) for i in range(rng.randint(3, 9))],
+    # many distinct feature types make sqlite answer featuretype filters through its index; a minority of runs is
+    # large enough (> 100 matching rows) for any internal batching of result rows to matter
+    types = MANY_TYPES if rng.random() < 0.5 else TYPES
+    n0 = rng.randint(3, 9) if rng.random() > 0.06 else rng.choice([130, 260])
+    steps = [{"op": "create", "feats": [feat(rng, ids[i] if i < len(ids) and rng.random() < 0.7 else None, types) for i in range(n0)],
               "form": rng.choice(["path", "list", "gen"])}]
     for _ in range(rng.choice([0, 1, 1, 2, 3])):
         k = rng.choice(["update", "update", "delete", "reopen", "restart"])
         if k == "update":
-            steps.append({"op": "update", "feats": [feat(rng, rng.choice(ids)) for _ in range(rng.randint(1, 3))],
+            steps.append({"op": "update", "feats": [feat(rng, rng.choice(ids), types) for _ in range(rng.randint(1, 3))],
                           "strategy": rng.choice(["replace", "replace", "create_unique", "merge"]), "form": rng.choice(["list", "gen", "path"])})
         elif k == "delete":
             steps.append({"op": "delete", "ids": rng.sample(ids + ["gene_1", "exon_1"], rng.choice([1, 2]))})
@@ -88,8 +93,11 @@ def gen(rng, tier):
             st["via"] = "other_process"  # the write is made by another process while this handle stays open
     if memory:
         steps = [st for st in steps if st["op"] not in ("reopen", "restart")]
-    return {"steps": steps, "queries": [gen_query(rng) for _ in range(rng.randint(10, 16))], "qseed": rng.getrandbits(32),
-            "memory": memory}
+    queries = [gen_query(rng, types) for _ in range(rng.randint(10, 16))]
+    # always present: the plain full scan, and input order requested explicitly for a collection of types
+    queries.append({"m": "all_features"})
+    queries.append({"m": "all_features", "featuretype": rng.sample(types, min(len(types), rng.choice([2, 3, 5]))), "order_by": rng.choice(["file_order", ["file_order"]])})
+    return {"steps": steps, "queries": queries, "qseed": rng.getrandbits(32), "memory": memory}
 
 
 def sort_key(col, f, pos):
@@ -206,6 +214,8 @@ def run(case):
             # each must still yield exactly what it yields when consumed alone
             qs = qrng.sample(case["queries"], min(len(case["queries"]), qrng.choice([2, 2, 3])))
             if qrng.random() < 0.5:
+                qs = [{"m": "all_features"}] + qs[:2]
+            if qrng.random() < 0.5:
                 qs = qs + [dict(qs[0])]  # two iterations of the very same query
                 if qs[0].get("strand"):
                     qs[-1]["strand"] = {"+": "-", "-": "+", ".": "+"}[qs[0]["strand"]]  # same shape, other argument
@@ -229,7 +239,7 @@ def run(case):
                 r = call(node, dict(rq, op="read", h="h"))
                 alone.append(r["out"] if r["ok"] else None)
             if all(a is not None for a in alone):
-                sched = [qrng.randrange(len(reqs)) for _ in range(qrng.randint(2, 30))]
+                sched = [qrng.randrange(len(reqs)) for _ in range(qrng.randint(2, 30) if len(feats) < 100 else qrng.randint(150, 400))]
                 r = call(node, {"op": "interleave", "h": "h", "queries": reqs, "schedule": sched})
                 if not r["ok"]:
                     V.append(viol("C11.interleaved", "%s: interleaved iteration raised %s: %s" % (where, r["exc"], r["msg"]),
